@@ -633,7 +633,8 @@ with PolarsImpl.impl_store.impl_manager as impl:
 
     @impl(ops.str_replace_all)
     def _str_replace_all(x, to_replace, replacement):
-        return x.str.replace_all(to_replace, replacement)
+        # `substr` is a plain string, not a regular expression
+        return x.str.replace_all(to_replace, replacement, literal=True)
 
     @impl(ops.str_len)
     def _str_len(x):
